@@ -148,7 +148,7 @@ ZONES = {
     'float_exp': ('F-FLOATEXP', trig_floatexp, ('reparse',)),
     'triple_quote_text': ('F-TRIPLE', trig_triple, ('reparse', 'roundtrip:')),
     'dot_in_name': ('F-DOT', trig_dot, ('reparse', 'roundtrip:.tables[].columns[].type')),
-    'ref_col_trim': ('F-REFSPLIT', trig_refsplit, ('reparse',)),
+    'ref_col_trim': ('F-REFSPLIT', trig_refsplit, ('reparse', 'roundtrip:.refs', 'sql')),
     'kw_prefix_name': ('F-KWPREFIX', trig_kwprefix, ('reparse',)),
     'ws_only_line': ('F-WSLINE', trig_wsline, ('roundtrip:', 'sql')),
 }
